@@ -135,6 +135,12 @@ def corpus(ctx, rng):
     pep = gen.peptide(["ALA", "SER", "LYS", "GLY", "ASP"])
     jobs.append({"what": "ligand-complex", "text": gen.pdb_text([pep + gen.water((6, 14, 4), resseq=101), lig]),
                  "args": ["--ff=AMBER", f"--ligand={os.path.join(DATA, 'acetate.mol2')}"]})
+    # ... with two unparameterised hetero groups of one name and number in different chains (cofactors of a homo-dimer)
+    def cof(chain, at):
+        return [{"rec": "HETATM", "name": n, "resname": "XYZ", "chain": chain, "resseq": 401, "icode": "", "xyz": np.array(at) + np.array([1.4 * k, 0.3 * k, 0.0]),
+                 "element": n[0]} for k, n in enumerate(["S1", "O1", "O2"])]
+    jobs.append({"what": "ligand-complex with twin hetero groups", "text": gen.pdb_text([pep + gen.water((6, 14, 4), resseq=101), lig, cof("X", (14, -16, 10)), cof("Y", (-14, 16, -10))]),
+                 "args": ["--ff=AMBER", f"--ligand={os.path.join(DATA, 'acetate.mol2')}"]})
     real = ["1AJJ.pdb", "cterm_hid.pdb", "5vav_cyclic_peptide.pdb", "1BX8.pdb", "1K1I.pdb"] if ctx.quick else sorted(os.path.basename(f) for f in __import__("glob").glob(os.path.join(DATA, "*.pdb")))
     for n, f in enumerate(real):
         jobs.append({"what": f, "text": open(os.path.join(DATA, f)).read(), "args": [f"--ff={ffs[n % 6]}"] + opts_cycle[(2 * n) % len(opts_cycle)]})
@@ -195,6 +201,11 @@ def _job(job):
         alive = [ids.get(id(a), 0) for rr in bio.residues for a in rr.atoms]
         matched, missing = getattr(tr, "ff_lists", ([], []))
         rendered = getattr(tr, "rendered", None) or []
+        if r.get("missed") is not None and "--clean" not in job["args"]:
+            # the lists as the run finally reports them (the ligand step and anything after it included)
+            missing = list(r["missed"])
+            if rendered:
+                matched = list(rendered)
         if "--clean" in job["args"]:
             # no force field: every atom of the flat list is written as it is
             matched, missing, rendered = list(bio.atoms), [], list(bio.atoms)
@@ -323,8 +334,11 @@ def run(ctx):
             ctx.violation({"clause": "EveryInputHeavyAtomEntersTheModel"},
                           f"{t['what']}: the input has {v[3]} distinct heavy coordinate records, {v[2]} heavy atoms entered the model", {"what": t["what"]})
         elif kind == "PARTITION":
-            ctx.violation({"clause": "Partition", "ligand": "--ligand" in t["what"]},
+            ctx.violation({"clause": "Partition", "ligand": "--ligand" in t["what"], "direction": "fewer" if v[2] + v[3] < v[4] else "more-or-overlap"},
                           f"{t['what']}: matched {v[2]} + unassigned {v[3]} atoms for {v[4]} atoms in the model", {"what": t["what"]})
+        elif kind == "UNACCOUNTED":
+            ctx.violation({"clause": "EveryAtomWrittenOrReported"}, f"{t['what']}: {v[2]} atoms of the final model are neither matched (written) nor in the unassigned list",
+                          {"what": t["what"]})
         elif kind == "WRITTEN":
             ctx.violation({"clause": "WrittenIsMatched", "ligand": "--ligand" in t["what"]},
                           f"{t['what']}: {v[2]} PQR atom lines identified for {v[3]} matched atoms", {"what": t["what"]})
